@@ -77,8 +77,8 @@ def _gettype(it, obj):
 
 
 def _getattr(it, typ, name):
-    if typ[1] == "D" and name == "__ne__":
-        return object.__ne__  # class D defines __eq__ only: its __ne__ is the one inherited from object
+    if typ[1] in ("D", "E") and name == "__ne__":
+        return object.__ne__  # classes D / E define __eq__ only: their __ne__ is the one inherited from object
     return ("method", typ[1], name)
 
 
@@ -89,7 +89,7 @@ def _subcall(it, self, fn, args, kwargs, noreturn=None):
         return SObj(_Expr, f_result=True)
     _, kind, name = fn
     x, y = args
-    if kind == "A":
+    if kind in ("A", "E"):  # E: an __eq__ that does not know the other operand (and no __ne__ of its own)
         return SObj(_Expr, f_result=NotImplemented)
     return SObj(_Expr, f_result=CMP[name](x.fields["f_v"], y.fields["f_v"]))
 
@@ -110,7 +110,7 @@ def operand_shape(name, kind):
 
 def cmp_spec(opname, kl, kr):
     def spec(sx, operator, lhs, rhs):
-        if kl == "A" and kr == "A":
+        if kl in ("A", "E") and kr in ("A", "E"):
             sx.reject(AssertionError)
         want = CMP[opname](lhs.fields["f_result"].fields["f_v"], rhs.fields["f_result"].fields["f_v"])
 
@@ -151,7 +151,7 @@ def _mk_inv(it, args, kwargs):
 # operands of a class with __eq__ but without __ne__: `a != b` is the inverted value of the TRACED __eq__ (until fix
 # the default object.__ne__ ran natively on the placeholders and the comparison was folded to a constant)
 for op_cls, opname in ((ast.NotEq, "__ne__"), (ast.Eq, "__eq__")):
-    for kl, kr in (("D", "A"), ("D", "B"), ("D", "D"), ("A", "D"), ("B", "D")):
+    for kl, kr in (("D", "A"), ("D", "B"), ("D", "D"), ("A", "D"), ("B", "D"), ("E", "B"), ("E", "D"), ("E", "E"), ("E", "A")):
         opshape = Built([], (lambda oc: lambda env: oc())(op_cls), lambda a: "<op>", lambda a: None)
         c = Case(f"{op_cls.__name__}:{kl},{kr}", [opshape, operand_shape("x", kl), operand_shape("y", kr)], cmp_spec(opname, kl, kr))
         c.native = False
